@@ -48,6 +48,9 @@ void case_impl(Ctx &c, bool resync, bool bursts = false) {
   }
   // mode sync-id-rewritten: the node also has event-driven TPDOs without mapping on the four channels (they never transmit by themselves); a client
   // switches them off and on while the node runs - which is none of the RPDOs' business
+  // mode frame-bursts: the node also monitors a heartbeat (1016h) of the node whose id equals the low byte of its RPDO identifiers - only 700h + id is that
+  // node's heartbeat, every other identifier with that low byte is none of the consumer's business
+  if (bursts) add_hbcons(w, {{s.nodeid, 50}});
   TpdoCfg tp[4]; if (resync) for (int p = 0; p < 4; p++) tp[p] = add_tpdo(w, p, 0x40000180u + 0x100u * (uint32_t)p + s.nodeid, 255, 0, 0, {}, 1);
   w.finish();
   for (int i = 0; i < 6; i++) ob[i] = w.lookup(0x2100, (uint8_t)(i + 1));
